@@ -1,0 +1,18 @@
+//go:build verif
+
+package telemetry
+
+// vtraceSink receives every vtrace call when the package is built with
+// the "verif" tag. Every call site sits inside the sequencer lock, after
+// the state change it names, so the sink runs serialized by that lock and
+// may read sequencer / drop state directly. nil → calls are ignored.
+//
+// Set it only while no client is running.
+var vtraceSink func(ev string, a, b, c uint64)
+
+// vtrace forwards one linearization-point event to vtraceSink.
+func vtrace(ev string, a, b, c uint64) {
+	if s := vtraceSink; s != nil {
+		s(ev, a, b, c)
+	}
+}
